@@ -37,6 +37,13 @@ CHECKS.update({
     "C11": ("DESIGN 4 C11", "CFG on real networkx against a Python set of (source, target, label) triples: pre-states with parallel edges in both insertion orders, then one or two operations of the full MutableSet alphabet; length, membership of all 12 edges, iteration, out_edges/in_edges and block views after every step."),
 })
 
+CHECKS.update({
+    "C01": ("DESIGN 4 C01", "Per-kind harnesses with the kind's scalar fields symbolic over their schema ranges (Optional address, u64/i64 values, label flags, unknown attribute numbers, AuxData values) and every enum constant / payload kind / shape enumerated: IR._to_protobuf then IR._from_protobuf on pure-Python messages; an independent snapshot of all observable content must be equal, deep_eq must hold both ways, and a second generation must be equal."),
+    "C02": ("DESIGN 4 C02", "Writer: every field of the produced message compared with the attribute through an explicit attribute-field table (presence flag, one-ofs, enum numbers looked up by name in the descriptor, vertices, 16-byte UUIDs, header bytes). Reader: messages built directly from the descriptors with symbolic fields (incl. has_address=False with a non-zero address, explicit defaults, every declared enum number), every attribute compared with the field. Each direction has its own postcondition."),
+    "C14": ("DESIGN 4 C14", "AuxData lazy-table state machine: known table with symbolic contents under every action sequence (leave, read, mutate in place, assign, rename to same/other type, save+reload) judged by a three-field model and the reference reader; unknown, partially unknown, empty, non-canonical, non-ASCII and variant tables with concrete payloads; IR- and module-level tables."),
+    "C18": ("DESIGN 4 C18", "Two builds per kind from parameter vectors whose scalar coordinates are symbolic over their full ranges; side B equals side A except for one free coordinate, for every coordinate; deep_eq must equal equality of an independent normal form, be symmetric and reflexive; children are inserted in opposite orders; cross-kind pairs sharing a UUID."),
+})
+
 NOT_APPLICABLE = {
 }
 
